@@ -142,6 +142,87 @@ func driveConc(args []string) int {
 				}
 			}
 		}
+		// the same Option values handed to all concurrent callers (options are values a caller may build once and reuse), every
+		// caller with diagnostics, warnings and output; the writers behind them are safe for concurrent use
+		{
+			lo, ll := &lockedWriter{}, &lockedWriter{}
+			shared := []bcl.Option{bcl.OptOutput(lo), bcl.OptLogger(ll)}
+			srcOf := func(i int) []byte {
+				return []byte(fmt.Sprintf("def a \"x%d\" { f = %d }\ndef b { g = %d }\nprint %d\nbind a -> struct\nbind b -> struct\nprint )\nvar = %d\n", i, i, i, i, i))
+			}
+			okOf := func(i int) []byte {
+				return []byte(fmt.Sprintf("def a \"x%d\" { f = %d }\ndef b { g = %d }\nprint %d\nbind a -> struct\nbind b -> struct\n", i, i, i, i))
+			}
+			run1 := func(i int, opts []bcl.Option) string {
+				var e1, e2 error
+				var res []bcl.Block
+				var bind bcl.Binding
+				func() {
+					defer func() {
+						if x := recover(); x != nil {
+							e1 = fmt.Errorf("PANIC %v", x)
+						}
+					}()
+					_, _, e1 = bcl.Interpret(srcOf(i), opts...)
+					res, bind, e2 = bcl.Interpret(okOf(i), opts...)
+				}()
+				return fmt.Sprintf("e1=%v e2=%v res=%s bind=%s", e1, e2, canonBlocks(res), canonBinding(bind))
+			}
+			wantS := make([]string, n)
+			wantLog, wantOut := 0, 0
+			for i := 0; i < n; i++ {
+				var o, l bytes.Buffer
+				wantS[i] = run1(i, []bcl.Option{bcl.OptOutput(&o), bcl.OptLogger(&l)})
+				wantLog += l.Len()
+				wantOut += o.Len()
+			}
+			gotS := make([]string, n)
+			for i := 0; i < n; i++ {
+				wg.Add(1)
+				go func(i int) {
+					defer wg.Done()
+					gotS[i] = run1(i, shared)
+				}(i)
+			}
+			wg.Wait()
+			s.Cases += n
+			s.Judged += n
+			for i := range gotS {
+				if gotS[i] != wantS[i] {
+					s.bad("a call sharing its Option values with concurrent calls gave a different outcome than alone", "shared-options", []byte(fmt.Sprint(i)), map[string]string{"alone": wantS[i], "concurrent": gotS[i]}, true)
+				}
+			}
+			lo.mu.Lock()
+			ll.mu.Lock()
+			if lo.b.Len() != wantOut || ll.b.Len() != wantLog {
+				s.bad("output / log volume of calls sharing their Option values differs from the sum of the calls alone", "shared-options-volume", []byte(`"shared options"`), fmt.Sprintf("out %d (want %d) log %d (want %d)", lo.b.Len(), wantOut, ll.b.Len(), wantLog), true)
+			}
+			ll.mu.Unlock()
+			lo.mu.Unlock()
+			// one shared Prog whose execution logs a warning (repeated bind), its log writer safe for concurrent use
+			lw := &lockedWriter{}
+			if pw, err := bcl.Parse(okOf(round), "warn", bcl.OptOutput(io.Discard), bcl.OptLogger(lw)); err == nil {
+				bcl.Execute(pw)
+				lw.mu.Lock()
+				one := lw.b.Len()
+				lw.b.Reset()
+				lw.mu.Unlock()
+				for i := 0; i < n; i++ {
+					wg.Add(1)
+					go func() {
+						defer wg.Done()
+						defer func() { recover() }()
+						bcl.Execute(pw)
+					}()
+				}
+				wg.Wait()
+				lw.mu.Lock()
+				if lw.b.Len() != n*one || one == 0 {
+					s.bad("warnings of concurrent executions of a shared Prog are not n times the warnings of one", "shared-prog-warnings", []byte(`"warn"`), fmt.Sprintf("%d bytes, expected %d x %d", lw.b.Len(), n, one), true)
+				}
+				lw.mu.Unlock()
+			}
+		}
 		// one shared Prog, executed from n goroutines
 		var src []byte
 		var p *bcl.Prog
